@@ -133,6 +133,7 @@ pub fn op_strategy(n_peers: u8, mix: Mix) -> BoxedStrategy<Op> {
         (4, (node(), any::<u16>(), know()).prop_map(|(node, sel, know)| Op::AnswerWru { node, sel, know }).boxed()),
         (4, (node(), any::<u16>(), 1u8..=5).prop_map(|(node, sel, packets)| Op::Respond { node, sel, packets }).boxed()),
         (2, peer().prop_map(Op::Restart).boxed()),
+        (1, (node(), any::<u16>()).prop_map(|(node, sel)| Op::RespondOtherKind { node, sel }).boxed()),
     ];
     let probe = (xsel(), 0u8..3).prop_map(|(x, z)| Op::Probe { x, z }).boxed();
     let forged_msg = (xsel(), 0u8..3, prop_oneof![Just(ForgedBody::Ping), Just(ForgedBody::Talk), Just(ForgedBody::Garbage)])
@@ -157,6 +158,7 @@ pub fn op_strategy(n_peers: u8, mix: Mix) -> BoxedStrategy<Op> {
     match mix {
         Mix::Faulty => {}
         Mix::Exemptions => {
+            all.push((2, (node(), any::<u16>()).prop_map(|(node, sel)| Op::RespondOtherKind { node, sel }).boxed()));
             all.push((5, probe));
             all.push((7, forged_handshake()));
             all.push((2, forged_msg));
